@@ -167,6 +167,49 @@ func stableOne(t bs.TB, kind int, base bs.Input, current bs.Plan, digest string)
 	ev.Case("stable|"+bs.Names[kind]+"|"+digest, nontrivial(in))
 }
 
+// stableStaleOne is stableOne with members that missed a rebalance: a stale member presents
+// its claim at an older generation and additionally still claims partitions that have since
+// moved to other members (who claim them at the current generation). The current assignment
+// is what the highest-generation claims say, i.e. still `current`: valid and optimally
+// balanced, so the plan must leave every partition where it is (re-sticking a stale claim is
+// only ever justified by an imbalance, and there is none).
+func stableStaleOne(t bs.TB, kind int, base bs.Input, current bs.Plan, stale map[string]map[string][]int32, digest string) {
+	in := bs.Input{Members: bs.CloneMembers(base.Members), Counts: base.Counts}
+	nstale := 0
+	for i := range in.Members {
+		m := &in.Members[i]
+		m.Gen = 3
+		m.Owned = map[string][]int32{}
+		for tn, ps := range current[m.ID] {
+			if len(ps) > 0 {
+				m.Owned[tn] = slices.Clone(ps)
+			}
+		}
+		if extra, ok := stale[m.ID]; ok {
+			m.Gen = 2
+			for tn, ps := range extra {
+				m.Owned[tn] = append(m.Owned[tn], ps...)
+				nstale += len(ps)
+			}
+		}
+		for tn := range m.Owned {
+			slices.Sort(m.Owned[tn])
+		}
+	}
+	plan, err := bs.Run(bs.Balancer(kind), in)
+	if err != nil {
+		if _, infra := err.(*bs.InfraError); infra {
+			t.Fatalf("%v", err)
+		}
+		fail(t, kind, "balanced assignment not kept (stale claims present)", in, plan, err.Error())
+	}
+	if d := bs.SamePlan(in, current, plan); d != "" {
+		fail(t, kind, "balanced assignment not kept (stale claims present)", in, plan, "the highest-generation claims form a valid and optimally balanced assignment, but the plan differs: (current vs plan) "+d)
+	}
+	ev.Class("stable_with_stale_claims_" + bs.Names[kind])
+	ev.Case("stale|"+bs.Names[kind]+"|"+digest, nstale > 0)
+}
+
 var kinds = []int{bs.Sticky, bs.CoopSticky}
 
 // TestOptimalSmallExhaustive: the whole small space x the bounded family of
@@ -331,6 +374,47 @@ func TestStableRandom(t *testing.T) {
 		d := in.String() + " cur " + cur.String()
 		for _, kind := range kinds {
 			stableOne(t, kind, in, cur, d)
+		}
+		// members that missed the last rebalance: older generation, stale claims on partitions
+		// that now belong to others
+		owner := map[string]map[int32]string{}
+		for id, ts := range cur {
+			for tn, ps := range ts {
+				if owner[tn] == nil {
+					owner[tn] = map[int32]string{}
+				}
+				for _, p := range ps {
+					owner[tn][p] = id
+				}
+			}
+		}
+		stale := map[string]map[string][]int32{}
+		sd := ""
+		isStale := map[string]bool{}
+		for _, m := range in.Members {
+			isStale[m.ID] = rapid.IntRange(0, 2).Draw(t, "stale?") == 0
+		}
+		for _, m := range in.Members {
+			if !isStale[m.ID] {
+				continue
+			}
+			extra := map[string][]int32{}
+			for _, tn := range m.Topics {
+				for p := int32(0); p < in.Counts[tn]; p++ {
+					// only partitions whose owner claims them at the current generation: a claim
+					// that ties with the owner's own generation would make "current" ambiguous
+					if o, ok := owner[tn][p]; ok && !isStale[o] && rapid.IntRange(0, 3).Draw(t, "staleclaim") == 0 {
+						extra[tn] = append(extra[tn], p)
+					}
+				}
+			}
+			stale[m.ID] = extra
+			sd += fmt.Sprintf(" %s:%v", m.ID, extra)
+		}
+		if len(stale) > 0 && len(stale) < len(in.Members) {
+			for _, kind := range kinds {
+				stableStaleOne(t, kind, in, cur, stale, d+" stale"+sd)
+			}
 		}
 	})
 }
